@@ -72,7 +72,7 @@ def vocab():
             for term in ("a", "1000"):
                 for inv in (False, True):
                     v.append(("search", attr, op, term, inv))
-        for bad in ("(", "[", "*a"):
+        for bad in ("(", "[", "*a", "a{4294967296}", "(?u)(?a)x"):
             v.append(raw("[%s=~/%s/]" % (attr, bad)))
     v.append(raw("[a.b=a]"))
     v.append(raw("[/a/b=a]"))
@@ -154,7 +154,54 @@ def plan(tier):
     step = 25
     shards = [(lo, min(len(DOCS), lo + step))
               for lo in range(0, len(DOCS), step)]
+    from vkit.props import C14
+    shards += [("accepted", sym) for sym in C14.SIGMA]
+    bounds["accepted_texts"] = {
+        "alphabet": C14.SIGMA, "max_length": 3, "contexts": C14.CONTEXTS,
+        "inner_max_length": 2, "documents": ACCEPT_DOCS}
     return shards, bounds
+
+
+ACCEPT_DOCS = ['{"a": [1, {"b": "a"}], "b": "a"}', '["a", ["b", 1]]', '"a"']
+
+
+def accepted_shard(first):
+    """Every text of <= 3 symbols (and every text of <= 2 symbols inside each
+    syntactic context) of C14's alphabet that the parser accepts is a
+    syntactically valid path: evaluated on three documents it must give
+    results or a YAML Path error."""
+    import itertools
+    from vkit.props import C14
+    st = core.Stats(ID)
+    docs = [(t, corpus.load(t)) for t in ACCEPT_DOCS]
+    texts = [first]
+    for n in (1, 2):
+        for tail in itertools.product(C14.SIGMA, repeat=n):
+            texts.append(first + "".join(tail))
+    for pre, post in C14.CONTEXTS:
+        texts.append(pre + first + post)
+        for sym in C14.SIGMA:
+            texts.append(pre + first + sym + post)
+    for text in texts:
+        out, _ = C14.probe(text)
+        if out != "ok":
+            continue
+        for dtext, doc in docs:
+            st.evaluations += 1
+            st.transitions += 1
+            st.validated += 1
+            res = qrun.query(doc, text, mustexist=True)
+            cls = res.kind if res.kind in ("nodes", "unmatched") else (
+                res.kind + ":" + res.detail.split("@")[0])
+            st.outcomes[cls] += 1
+            st.states += 1
+            if res.kind == "crash":
+                st.fail("accepted-text|%s" % res.detail,
+                        {"doc": dtext, "path": text, "mode": "required"},
+                        "results or a YAML Path error", res.detail)
+            elif res.kind != "unmatched":
+                st.sig("accepted", text, cls)
+    return st
 
 
 def sigof(segs):
@@ -168,6 +215,8 @@ def sigof(segs):
 
 
 def run_shard(shard):
+    if shard[0] == "accepted":
+        return accepted_shard(shard[1])
     lo, hi = shard
     st = core.Stats(ID)
     for di in range(lo, hi):
